@@ -6,7 +6,7 @@ patch=$(readlink -f $1); id=$2; tier=${3:-quick}
 d=$(mktemp -d /tmp/mutrun.XXXXXX)
 cp -r /repo/src $d/src
 ( cd $d && grep -v '^# breaks' $patch | patch -s -p1 ) || { echo "patch failed"; rm -rf $d; exit 2; }
-cd /verif
+cd "$(dirname "$(readlink -f "$0")")/.."
 VERIF_EVIDENCE_DIR=$d/evidence VERIF_REPO=$d ./check $id $tier > $d/out.txt 2>&1
 rc=$?
 grep -v "^KNOWN-FINDING" $d/out.txt | tail -${LINES_OUT:-3}
